@@ -17,7 +17,15 @@ import (
 // Rand is a SplitMix64 generator.
 type Rand struct{ s uint64 }
 
-func NewRand(seed uint64) *Rand { return &Rand{s: seed*0x9E3779B97F4A7C15 + 0x1234567} }
+// NewRand mixes the seed before use, so that neighbouring seeds give unrelated streams (a
+// plain SplitMix64 state of seed*gamma would make seed+1 the same stream shifted by one draw).
+func NewRand(seed uint64) *Rand {
+	z := seed + 0x1234567
+	z = (z ^ (z >> 30)) * 0xBF58476D1CE4E5B9
+	z = (z ^ (z >> 27)) * 0x94D049BB133111EB
+	z ^= z >> 31
+	return &Rand{s: z * 0x9E3779B97F4A7C15}
+}
 
 func (r *Rand) Uint64() uint64 {
 	r.s += 0x9E3779B97F4A7C15
